@@ -126,12 +126,12 @@ static void mon_c03(World& w) {
     for (auto& o : w.ops) {
         if (o.kind != Action::PUB || o.qos == 0) continue;
         // transmissions of this message as the client wrote them (write log), in order
-        struct Tx { bool ok; bool dup; std::string raw; uint16_t pid; size_t wire_mark; }; std::vector<Tx> txs; std::string canon;
+        struct Tx { bool ok; bool dup; std::string raw; uint16_t pid; size_t wire_mark; int conn; size_t seq_start, seq_done; }; std::vector<Tx> txs; std::string canon;
         size_t first_pubrel_mark = SIZE_MAX;
         for (auto& wl : w.net->wlog) for (auto& pk : packets_in(wl.data)) {
             auto r = ref::decode(pk.second); if (r.st != ref::D_OK) continue;
             if (r.pkt.type == ref::PUBLISH && r.pkt.payload == o.payload) { std::string c = pk.second; c[0] = char(c[0] & ~0x08); if (canon.empty()) canon = c;
-                txs.push_back({wl.ok, r.pkt.dup(), c, r.pkt.pid, wl.wire_mark}); }
+                txs.push_back({wl.ok, r.pkt.dup(), c, r.pkt.pid, wl.wire_mark, wl.conn, wl.seq_start, wl.seq_done}); }
         }
         if (txs.empty()) continue;
         for (size_t k = 0; k < txs.size(); ++k) {
@@ -141,6 +141,21 @@ static void mon_c03(World& w) {
             if (k > 0 && earlier_ok && !txs[k].dup) { w.vio("C03:retransmission-without-dup:" + sn, "PUBLISH (tag " + std::to_string(o.tag) + ") retransmitted with DUP=0 although an earlier transmission had been written successfully"); break; }
         }
         if (o.qos != 2) continue;
+        // "consumed a successful PUBREC": the PUBLISH was written successfully on a connection and the client read, on that
+        // connection, a successful PUBREC for it - from then on the exchange is past the PUBLISH step whatever the order in
+        // which the two completions were processed
+        bool flagged = false;
+        for (size_t k = 0; k < txs.size(); ++k) { if (!txs[k].ok || txs[k].conn < 0) continue; const sim::Conn& cn = w.net->conns[txs[k].conn]; size_t consumed_seq = SIZE_MAX;
+            int p_idx = -1; for (auto& e : w.broker->wire) if (e.c2b && !e.malformed && e.conn == txs[k].conn && e.pkt.type == ref::PUBLISH && e.pkt.payload == o.payload) { p_idx = e.seq; break; }
+            if (p_idx < 0) continue;
+            for (auto& e : w.broker->wire) { if (e.c2b || e.malformed || e.conn != txs[k].conn || e.seq < p_idx || e.pkt.type != ref::PUBREC || e.pkt.pid != txs[k].pid || (e.pkt.has_rc && e.pkt.rc >= 0x80)) continue;
+                for (size_t m = 0; m < cn.read_marks.size() && m < cn.read_mark_seq.size(); ++m) if (cn.read_marks[m].first >= e.b2c_end) { consumed_seq = std::max(cn.read_mark_seq[m], txs[k].seq_done); break; }
+                break; }
+            if (consumed_seq == SIZE_MAX) continue;
+            for (size_t j = k + 1; j < txs.size() && !flagged; ++j) if (txs[j].seq_start > consumed_seq) { w.vio("C03:publish-after-pubrec-read:" + sn, "QoS 2 PUBLISH (tag " + std::to_string(o.tag) + ") was transmitted again although it had been written successfully on connection " + std::to_string(txs[k].conn) + " and the client had read the successful PUBREC for it there"); flagged = true; }
+            if (flagged) break;
+        }
+        if (flagged) continue;
         // once a PUBREL for the message's id has been handed to the transport, no PUBLISH of the message again
         uint16_t pid = txs[0].pid; bool pubrel_seen = false; size_t idx = 0;
         for (auto& wl : w.net->wlog) { for (auto& pk : packets_in(wl.data)) { auto r = ref::decode(pk.second); if (r.st != ref::D_OK) continue; idx++;
@@ -607,7 +622,9 @@ static std::vector<Scenario> publish_scenarios(uint32_t mon, int tier, uint32_t 
     std::vector<Scenario> v; uint32_t fam = RECOVERABLE | SCHED | fam_extra | (tier ? F_BYTE : 0);
     ref::Props pp = {ref::pnum(0x01, 1), ref::pstr(0x03, "text/plain"), ref::ppair("tag", "x")};
     { auto s = base("P1-qos1", {RUN(), PUB(1, 1, false, pp)}, fam, tier ? 3 : 2, mon); s.broker.ack_props = true; s.broker.puback_rc = 0x10; v.push_back(s); }
-    { auto s = base("P2-qos2", {RUN(), PUB(2, 1, true, pp)}, fam, tier ? 3 : 2, mon); s.broker.ack_props = true; v.push_back(s); }
+    { auto s = base("P2-qos2", {RUN(), PUB(2, 1, true, pp)}, fam, tier ? 3 : 2, mon); s.broker.ack_props = true; v.push_back(s);
+      // PUBREC 0x10 (No matching subscribers) is a success code: the exchange goes on to PUBREL / PUBCOMP and the handler reports the PUBCOMP
+      s.name = "P2-qos2-pubrec-0x10"; s.broker.pubrec_rc = 0x10; s.D = tier ? 2 : 1; v.push_back(s); }
     { auto s = base("P3-burst-121", {RUN(), PUB(1, 1), PUB(2, 2), PUB(1, 3)}, fam & ~(F_WRSHORT), tier ? 2 : 1, mon); v.push_back(s); }
     { auto s = base("P4-sequential-id-reuse", {RUN(), PUB(1, 1), BARRIER(), PUB(2, 2), BARRIER(), PUB(1, 3)}, fam & ~(F_WRSHORT | F_CHUNK | F_NOREPLY | F_LOSS | F_HS | F_CONN), tier ? 3 : 2, mon); v.push_back(s); }
     { auto s = base("P8-same-qos-id-reuse", {RUN(), PUB(1, 1), BARRIER(), PUB(1, 2), BARRIER(), PUB(2, 3), BARRIER(), PUB(2, 4)}, F_WR | F_REORDER | F_RDCUT | F_TAIL | F_DELAY | F_BCLOSE, tier ? 3 : 2, mon); s.broker.ack_props = true; v.push_back(s); }
@@ -643,7 +660,13 @@ std::vector<Scenario> scenarios_for(const std::string& prop, int tier) {
         auto s012 = base("O-012", {RUN(), PUB(0, 1), PUB(1, 2), PUB(2, 3)}, fam, 2, M_C06);
         auto s2121 = base("O-2121", {RUN(), PUB(2, 1), PUB(1, 2), PUB(2, 3), PUB(1, 4)}, fam, tier ? 2 : 1, M_C06);
         auto late = base("O-late-publish", {RUN(), PUB(1, 1), PUB(2, 2), WAIT_HS(2), PUB(1, 3), PUB(0, 4)}, fam, 2, M_C06);
+        late.may_end_early = true;   // its WAIT_HS(2) is only reached when a fault makes the client reconnect
         for (auto& s : {s111, s121, s012, s2121, late}) { v.push_back(s); v.push_back(rm(s, 1)); v.push_back(rm(s, 2)); }
+        // serial-number distance: many publishes are initiated between two that are still pending when the connection is lost
+        for (int gap : (tier ? std::vector<int>{300, 40000, 70000} : std::vector<int>{300})) { Action m = A(Action::PUBMANY); m.qos = 0; m.tag = 100000; m.n = gap;
+            Scenario s = base("O-gap-" + std::to_string(gap), {RUN(), WAIT_HS(1), PUB(1, 1), m, PUB(2, 2), PUB(1, 3), A(Action::KILLCONN), WAIT_HS(2)}, 0, 0, M_C06); s.broker.hold_publish_acks = true; s.broker.hold_acks_first_conns = 1; s.max_steps = 400; v.push_back(s); }
+        // a large backlog queued while the first connection is being established goes out in initiation order
+        { Action m = A(Action::PUBMANY); m.qos = 1; m.tag = 200000; m.n = tier ? 3000 : 1000; Scenario s = base("O-backlog-while-connecting", {chain(RUN()), m}, 0, 0, M_C06); s.max_steps = 200 + 3 * m.n; v.push_back(s); }
         // the Receive Maximum differs from one connection to the next (announced -> absent, absent -> announced, 2 -> 1)
         { int k = 0; for (auto& seq : std::vector<std::vector<int>>{{1, 0}, {0, 1}, {2, 1}, {1, 0, 1}}) for (auto* b : {&s012, &s2121, &late}) { Scenario s = *b; s.name += "-rmseq" + std::to_string(k);
               for (int r : seq) s.broker.connack_props_script.push_back(r ? ref::Props{ref::pnum(0x21, uint32_t(r))} : ref::Props{}); s.fam |= F_CONN; v.push_back(s); } k++; }
@@ -821,11 +844,12 @@ std::vector<Scenario> scenarios_for(const std::string& prop, int tier) {
     }
     else if (prop == "C13") {
         // all sequences up to the length over {S ok, F all failed, X cancelled subscribe, R0 reconnect sp=0, R1 reconnect sp=1, M broker publishes}
-        int L = tier ? 5 : 4; const char* alpha = "SFXrRMB"; int nseq = 0;
+        int L = tier ? 5 : 4; const char* alpha = "SFXrRMBP"; int nseq = 0;   // P = one SUBSCRIBE with two filters, one granted and one refused
         std::vector<int> idx; std::function<void()> gen = [&]() {
             if (!idx.empty()) { Scenario s = base("Q-", {RUN(), RECV(12)}, 0, 0, M_C13); std::string nm; int subs = 0, recon = 0, connects = 1; s.broker.sp_policy = {-1};
                 for (int k : idx) { char c = alpha[k]; nm.push_back(c);
                     if (c == 'S') { s.script.push_back(SUB({{"s/" + std::to_string(subs), 1}})); s.script.push_back(BARRIER()); subs++; }
+                    if (c == 'P') { s.script.push_back(SUB({{"p/" + std::to_string(subs) + "/a", 1}, {"p/" + std::to_string(subs) + "/b", 2}})); s.script.push_back(BARRIER()); s.broker.suback_script.resize(subs + 1); s.broker.suback_script[subs] = (subs % 2) ? std::vector<uint8_t>{0x87, 0x01} : std::vector<uint8_t>{0x01, 0x87}; subs++; }
                     if (c == 'F') { s.script.push_back(SUB({{"f/" + std::to_string(subs), 1}})); s.script.push_back(BARRIER()); s.broker.suback_script.resize(subs + 1); s.broker.suback_script[subs] = {0x87}; subs++; }
                     if (c == 'X') { Action a = slot(SUB({{"x/" + std::to_string(subs), 1}})); s.script.push_back(a); s.script.push_back(SIGNAL(-2, 1)); s.script.push_back(A(Action::KILLCONN)); s.script.push_back(WAIT_HS(2 + recon)); s.script.push_back(BARRIER()); recon++; connects++; s.broker.sp_policy.push_back(-1); subs++; }
                     if (c == 'r' || c == 'R') { s.script.push_back(A(Action::KILLCONN)); s.script.push_back(WAIT_HS(2 + recon)); recon++; connects++; s.broker.sp_policy.push_back(c == 'r' ? 0 : -1); }
@@ -835,7 +859,7 @@ std::vector<Scenario> scenarios_for(const std::string& prop, int tier) {
                 s.name += nm; s.expect_all_success = false; s.fam = tier ? (F_REORDER | F_CHUNK) : 0; s.D = tier ? 1 : 0; s.idle_tail_s = 0; nseq++;
                 v.push_back(s); }
             if (int(idx.size()) == L) return;
-            for (int k = 0; k < 7; ++k) { idx.push_back(k); gen(); idx.pop_back(); } };
+            for (int k = 0; k < 8; ++k) { idx.push_back(k); gen(); idx.pop_back(); } };
         gen();
         // reconnect through the write path and through both paths at once, with faults around the CONNACK
         { auto s = base("Q-faulty-SrMS", {RUN(), RECV(8), SUB({{"a", 1}}), BARRIER(), PUB(1, 1), PUB(2, 2), SUB({{"b", 1}})}, F_WR | F_RDCUT | F_BCLOSE | F_REORDER | F_TAIL, tier ? 3 : 2, M_C13); s.broker.sp_policy = {-1, 0, -1, 0}; s.expect_all_success = false; v.push_back(s);
@@ -876,6 +900,8 @@ std::vector<Scenario> scenarios_for(const std::string& prop, int tier) {
             { Action a = SUB({{"$share/g/+", 1}}); req(a, shared == 0 ? 110 : (wild == 0 ? 108 : 0)); }
             { Action a = SUB({{"p/t", 1}}, {ref::pnum(0x0B, 5)}); req(a, subid == 0 ? 109 : 0); }                // subscription_identifier_not_available
             s.max_steps = 1500; v.push_back(s);
+            // the same capabilities learnt through an enhanced-authentication handshake (CONNACK follows AUTH rounds)
+            if (id % 3 == 1 || tier) { s.name = "CapAuth-" + std::to_string(id - 1); s.auth.present = true; s.auth.method = "SCRAM"; s.broker.auth_method = "SCRAM"; s.broker.auth_rounds = (id % 2) ? 2 : 0; v.push_back(s); }
         }
         // capabilities change from one connection to the next: requests issued while holding the second CONNACK follow the second
         { int k = 0; struct CapSet { int mq, ra, tam, wild, shared, subid; };
